@@ -119,7 +119,7 @@ def run(ctx):
     # ---------------- R3 index normalisation siblings
     ctx.rule("C14.R3", "list and string indexing share one normalisation: truncate to i64, negative -> add the length (elements resp. characters), still negative -> null, absent -> null; record / dot / #name access yield null for absent keys", floor=4)
     hev = core.hir_fn(EVAL)
-    m = H.matches_on(hev["body"], "ast::Expr")[0]
+    m = H.main_match(hev["body"], "ast::Expr")
     arms = {}
     for a in m["arms"]:
         for v in H.pat_variants(a["pat"]):
@@ -218,4 +218,9 @@ def run(ctx):
         cs = region_callees(bic, regions[v], cg)
         missing = [r for r in req if not any((c == r or c.endswith(r) or (r.startswith("closure:") and c.startswith("closure:") and c.endswith(r[8:])) or (not r.startswith("closure:") and r in c)) for c in cs)]
         bad = sorted(c for c in cs if FORBIDDEN.search(c))
-        ctx.inst("C14.R4", v, not missing and not bad, "missing key primitives: %s; look-alikes present: %s" % (missing, bad), bic.loc())
+        # a look-alike in the arm is a definite finding; a key primitive that is not called from the arm itself may have moved into a helper
+        # function or shared closure the arm calls (then: no verdict)
+        helpers = sorted(c for c in cs if (c.startswith("closure:") or c.startswith("blots_core::") or c.startswith("<blots_core")) and not any(c == r or c.endswith(r) or (r.startswith("closure:") and c.endswith(r[8:])) for r in req)
+                         and not re.search(r"::(as_\w+|reify|insert_\w+|borrow\w*|get_type|equals|compare|from|new|with_span|clone|index)$", c))
+        verdict4 = False if bad else (True if not missing else (None if helpers else False))
+        ctx.inst("C14.R4", v, verdict4, "missing key primitives: %s; look-alikes present: %s%s" % (missing, bad, "; helpers the arm delegates to: %s" % helpers[:4] if (missing and helpers) else ""), bic.loc())
